@@ -449,6 +449,14 @@ func (r *Runner) Rollback(ctx context.Context) (*RollbackResult, error) {
 		return nil, fmt.Errorf("read journal: %w", err)
 	}
 
+	if state.Phase == "started" || state.Phase == "first_boot_started" {
+		// The journal was written but the snapshot never completed, so no
+		// artifact was touched. A rollback/<from> directory found now belongs
+		// to an EARLIER upgrade from the same version; restoring it would
+		// silently revert whatever changed since.
+		return nil, fmt.Errorf("rollback: upgrade %s → %s stopped before its snapshot completed; nothing was modified and there is nothing to roll back (retry the apply with --force-retry)", state.From, state.To)
+	}
+
 	from := state.From
 	to := state.To
 	snapDir := filepath.Join(r.RollbackRoot, from)
